@@ -211,6 +211,8 @@ class Peer:
         self.oob, self.bond, self.yn = cfg[4] == "oob1", cfg[5] == "bond1", cfg[6]
         self.peer = 0
         self.passkey = 0
+        self.bonds = []          # (peer, rand, ediv) of the store_bond callbacks seen
+        self.last_events = []
         self.reset_pairing()
         model.case(cfg)
 
@@ -224,7 +226,12 @@ class Peer:
         self.ska_x = None
 
     def send(self, line):
-        return self.m.op(line)
+        r = self.m.op(line)
+        for w in r.split()[1:]:
+            if w.startswith("bond="):
+                k, rnd, ediv = w[5:].split(":")
+                self.bonds.append((self.peer, int(rnd), int(ediv)))
+        return r
 
     def pdu(self, bs):
         r = self.send("in " + hx(bs))
@@ -477,6 +484,38 @@ def step_ops(peer, rng, weights=None):
         peer.send("enc %d" % rng.randrange(2))
     else:
         peer.new_connection(rng.randrange(4))
+
+
+def link_ops(peer, rng):
+    """what the link layer / application do between pairing steps: key requests (also for stored bonds),
+    encryption changes, output polls, status queries, reconnects"""
+    r = rng.random()
+    if r < 0.28:
+        if peer.bonds and rng.random() < 0.6:
+            _, rnd, ediv = rng.choice(peer.bonds)
+            k = rng.random()
+            peer.send("key %d %d" % ((ediv, rnd) if k < 0.7 else (ediv ^ 1, rnd) if k < 0.85 else (ediv, rnd + 1)))
+        else:
+            peer.send("key %d %d" % (rng.choice([0, 0, 0, 1, 65535]), rng.choice([0, 0, 0, 1, 2 ** 40 + 5])))
+    elif r < 0.50:
+        peer.send("enc %d" % (1 if rng.random() < 0.65 else 0))
+    elif r < 0.75:
+        peer.poll()
+    elif r < 0.92:
+        peer.send("status")
+    else:
+        peer.new_connection(rng.choice([0, 0, 1, 2, 3]))
+
+
+def mixed_walk(n, p_link):
+    def script(peer):
+        rng = peer.rng
+        for _ in range(n):
+            if rng.random() < p_link:
+                link_ops(peer, rng)
+            else:
+                step_ops(peer, rng)
+    return script
 
 
 def cfg_words(prop, cfg5, yn):
